@@ -128,7 +128,9 @@ func (r *deliveryRule) checkAtDispatch(e *Engine, st *State, s *delivSigma, pos 
 		where = "async"
 	}
 	switch s.F {
-	case 'n', 't', 'w':
+	case 'n', 't':
+	case 'w':
+		e.Report(st, pos, "PublishContext/dispatch-"+where+"/filter", "a handler is dispatched although its filter was not evaluated: the filter's parameter type is not the static type of this publish (an event published through an interface-typed value) and nothing evaluates it otherwise, so a handler whose filter rejects the event is invoked")
 	case 'u':
 		e.Report(st, pos, "PublishContext/dispatch-"+where+"/filter", "a handler is dispatched on a path that never consulted its filter")
 	case 'p', 'c':
@@ -184,13 +186,15 @@ func (r *deliveryRule) OnInstr(e *Engine, st *State, fc *FrameCtx, in ssa.Instru
 	if rc, call, ok := r.ev.filterCall(fc, in); ok {
 		r.filterSites[in.Pos()] = true
 		r.noteH(rc)
-		if s.F == 'p' || s.F == 'u' {
+		if s.F == 'p' || s.F == 'u' || s.F == 'w' {
 			s.F = 'c' // called, outcome pending
 		}
 		// argument must be the published event
-		if len(call.Common().Args) == 1 {
-			a := e.CanonS(fc, call.Common().Args[0])
-			if a != r.eventCanon {
+		for _, arg := range call.Common().Args {
+			if fld, _, isF := r.ev.regFieldLoad(fc, arg); isF && fld == r.R.RegFilter {
+				continue // the filter itself, handed to the evaluating helper
+			}
+			if a := e.CanonS(fc, arg); a != r.eventCanon {
 				e.Report(st, in.Pos(), "PublishContext/filter/arg", "the filter is evaluated on %s, not on the published event", a)
 			}
 		}
@@ -217,8 +221,8 @@ func (r *deliveryRule) OnInstr(e *Engine, st *State, fc *FrameCtx, in ssa.Instru
 		switch kind {
 		case "cas01", "swap1":
 			st.Note(in.Pos(), "atomic claim attempt (%s)", kind)
-			if s.F == 'u' || s.F == 'p' || s.F == 'c' {
-				e.Report(st, in.Pos(), "PublishContext/claim/after-filter", "the once claim is attempted before the filter accepted the event (filter state %c)", s.F)
+			if s.F == 'u' || s.F == 'p' || s.F == 'c' || s.F == 'w' {
+				e.Report(st, in.Pos(), "PublishContext/claim/after-filter", "the once claim is attempted before the filter accepted the event (filter state %c; w = the filter's parameter type is not the static type of the publish and nothing else evaluated it)", s.F)
 			}
 			if s.P != 'l' {
 				e.Report(st, in.Pos(), "PublishContext/claim/after-context-gate", "the once claim is attempted before a live poll of the publish context: a cancelled publish can use the handler up")
